@@ -202,7 +202,9 @@ Definition jws_verify (r : jws_alg_row) (k : key) (mat : bool) (siglen : N) : re
   else Err EOracleMiss.
 
 (* ---------- where the key comes from ---------- *)
-Inductive keysrc := SrcKey | SrcSet.   (* a Key object / a KeySet holding this one key *)
+(* a Key object / a KeySet holding this one key / a KeySet of several keys resolved by
+   the "kid" of the (recipient) header / a callable returning the key for that "kid" *)
+Inductive keysrc := SrcKey | SrcSet | SrcKid | SrcCall.
 
 (* KeySet.pick_random_key(alg) on a one-key set, then "Invalid key" ValueError *)
 Definition pick_random (alg : string) (k : key) : res key :=
@@ -219,6 +221,7 @@ Definition guess_key (src : keysrc) (use_random : bool) (alg : string) (k : key)
   match src with
   | SrcKey => Ok k
   | SrcSet => if use_random then pick_random alg k else Ok k
+  | SrcKid | SrcCall => Ok k       (* get_by_kid(kid) / key(obj): the designated key *)
   end.
 
 (* ---------- JWS entry points ---------- *)
@@ -478,6 +481,94 @@ Definition jwe_run (e : jwe_entry) (src : keysrc) (alg enc : string) (k0 : key)
       if jwe_is_enc e then jwe_encrypt_alg r en k sender
       else do _ <- map_exchange_err (jwe_decrypt_alg r en k sender ek);
            if mat then Ok tt else Err (EJose DecodeError)
+  end.
+
+(* ---------- general JSON with several recipients ---------- *)
+(* one recipient of a GeneralJSONEncryption: its own "alg", the key that the key
+   source resolves for it (or the key handed to add_recipient), the kind of the
+   received "epk", and whether that key's material is the one the token was made for *)
+Record mrec := { m_alg : string; m_key : key; m_pre : bool; m_epk : epk; m_mat : bool }.
+
+Fixpoint forall_res {A} (f : A -> res unit) (l : list A) : res unit :=
+  match l with
+  | [] => Ok tt
+  | x :: r => do _ <- f x; forall_res f r
+  end.
+
+Definition with_alg (alg : string) (f : jwe_alg_row -> res unit) : res unit :=
+  match find_jwe alg with
+  | None => Err (EJose UnsupportedAlgorithmError)
+  | Some r => f r
+  end.
+
+(* pre_encrypt_recipients, one recipient: __prepare_recipient_algorithm (key agreement:
+   prepare_ephemeral_key = check_key_type), direct mode with several recipients is a
+   ConflictAlgorithmError, key wrapping / key encryption run encrypt_cek now, key
+   agreement with key wrapping is delayed until the content is encrypted *)
+Definition jwe_enc_pre (n : nat) (r : jwe_alg_row) (en : jwe_enc_row) (k : key)
+           (sender : option key) : res unit :=
+  if is_agreement r then
+    do _ <- jwe_check_key_type r k;
+    if ea_direct r && Nat.ltb 1 n then Err (EJose ConflictAlgorithmError) else Ok tt
+  else if ea_direct r && Nat.ltb 1 n then Err (EJose ConflictAlgorithmError)
+  else jwe_encrypt_alg r en k sender.
+
+(* the (direct or delayed) key agreement of one recipient *)
+Definition jwe_enc_post (r : jwe_alg_row) (en : jwe_enc_row) (k : key)
+           (sender : option key) : res unit :=
+  if is_agreement r then jwe_encrypt_alg r en k sender else Ok tt.
+
+(* jwe.encrypt_json(obj, keys, sender_key=sender) on a GeneralJSONEncryption *)
+Definition jwe_multi_enc (src : keysrc) (enc : string) (rs : list mrec)
+           (sender : option key) : res unit :=
+  match find_enc enc with
+  | None => Err (EJose UnsupportedAlgorithmError)
+  | Some en =>
+      let n := length rs in
+      do _ <- forall_res (fun m =>
+                do _ <- jwe_attach (if m_pre m then EEncGenPre else EEncGen) src (m_alg m) (m_key m) sender;
+                Ok tt) rs;
+      do _ <- forall_res (fun m => with_alg (m_alg m) (fun r => jwe_enc_pre n r en (m_key m) sender)) rs;
+      forall_res (fun m => with_alg (m_alg m) (fun r => jwe_enc_post r en (m_key m) sender)) rs
+  end.
+
+(* except (AssertionError, JoseError): swallowed unless verify_all_recipients *)
+Definition swallowed (e : exn) : bool :=
+  match e with EJose _ | EAssert => true | _ => false end.
+
+Definition jwe_dec_one (r : jwe_alg_row) (en : jwe_enc_row) (m : mrec) (sender : option key) : res unit :=
+  do _ <- jwe_decrypt_alg r en (m_key m) sender (m_epk m);
+  if m_mat m then Ok tt else Err (EJose DecodeError).
+
+(* the recipient loop of _perform_decrypt; got = a CEK has been recovered *)
+Fixpoint dec_loop (verify_all : bool) (en : jwe_enc_row) (sender : option key)
+         (rs : list mrec) (got : bool) : res bool :=
+  match rs with
+  | [] => Ok got
+  | m :: rest =>
+      match find_jwe (m_alg m) with
+      | None => Err (EJose UnsupportedAlgorithmError)
+      | Some r =>
+          match jwe_dec_one r en m sender with
+          | Ok _ => dec_loop verify_all en sender rest true
+          | Err e => if swallowed e && negb verify_all
+                     then dec_loop verify_all en sender rest got else Err e
+          end
+      end
+  end.
+
+(* jwe.decrypt_json(data, keys, registry=JWERegistry(verify_all_recipients=...)) on a
+   general JSON serialization: _attach_recipient_keys over EVERY recipient, then the loop *)
+Definition jwe_multi_dec (verify_all : bool) (src : keysrc) (enc : string) (rs : list mrec)
+           (sender : option key) : res unit :=
+  match find_enc enc with
+  | None => Err (EJose UnsupportedAlgorithmError)
+  | Some en =>
+      do _ <- forall_res (fun m =>
+                do _ <- jwe_attach EDecGen src (m_alg m) (m_key m) sender; Ok tt) rs;
+      map_exchange_err
+        (do got <- dec_loop verify_all en sender rs false;
+         if got then Ok tt else Err (EJose DecodeError))
   end.
 
 End WithPrim.
